@@ -32,6 +32,7 @@ package distributed
 //@ func (SubscriptionsState).Create(s SubscriptionsState, sessionID string, pattern []byte, qos int32) (err error)
 //@   modifies #subCreates, #lastSubPattern, #lastSubSession
 //@   ensures #subCreates == old(#subCreates) + 1 && #lastSubPattern == pattern && #lastSubSession == sessionID
+//@   records #lastSubOk := err == nil
 //@ func (SubscriptionsState).Delete(s SubscriptionsState, sessionID string, pattern []byte) (err error)
 //@   modifies #subDeletes, #lastSubPattern, #lastSubSession
 //@   ensures #subDeletes == old(#subDeletes) + 1 && #lastSubPattern == pattern && #lastSubSession == sessionID
